@@ -360,5 +360,6 @@ package function
 //@   ensures[C06,C18] clamp_max-stamped-with-the-step-time: validSample(result) ==> result.Point.T == f.StepTime
 // simpleFunc (abs, ceil, ..., the math functions): applied to the sample's value, stamped with the step time.
 //@ func simpleFunc$1
+//@   requires !isnil(f)
 //@   ensures[C06] simple-function-absent-without-a-sample: len(fa.Points) == 0 ==> !validSample(result)
 //@   ensures[C06,C18] simple-function-stamped-with-the-step-time: validSample(result) ==> result.Point.T == fa.StepTime
